@@ -4,6 +4,7 @@ import (
 	"fmt"
 	"go/constant"
 	"go/token"
+	"go/types"
 	"sort"
 	"strings"
 
@@ -96,38 +97,54 @@ func extTable(p *Prog, l *Ledger, rule, fname string) (map[string]string, bool, 
 		return nil, false, false
 	}
 	isExt := func(v ssa.Value) bool {
-		c, ok := v.(*ssa.Call)
-		if !ok {
-			return false
-		}
-		sc := c.Call.StaticCallee()
-		return sc != nil && sc.String() == "path/filepath.Ext"
+		hasExt, _ := extExpr(p, v, 0)
+		return hasExt
 	}
 	arms, tag, def := switchArms(fn, isExt)
 	table := map[string]string{}
+	note := func(arm *caseArm, sc *ssa.Function) {
+		if sc == nil {
+			return
+		}
+		if kind, fam := codecFamily(FnName(sc)); kind != "" {
+			for _, ext := range arm.consts {
+				if old, dup := table[ext]; dup && old != fam {
+					table[ext] = old + "+" + fam
+				} else {
+					table[ext] = fam
+				}
+			}
+		}
+	}
 	for _, arm := range arms {
 		for _, c := range callsUnder(arm.target, nil) {
-			if sc := c.Call.StaticCallee(); sc != nil {
-				if kind, fam := codecFamily(FnName(sc)); kind != "" {
-					for _, ext := range arm.consts {
-						if old, dup := table[ext]; dup && old != fam {
-							table[ext] = old + "+" + fam
-						} else {
-							table[ext] = fam
+			note(arm, c.Call.StaticCallee())
+		}
+		// a codec selected as a function value (write = s.WriteToSRT; write = func(o) { return s.WriteToTTML(o) })
+		for _, x := range fn.Blocks {
+			if x != arm.target && !arm.target.Dominates(x) {
+				continue
+			}
+			for _, ins := range x.Instrs {
+				mc, ok := ins.(*ssa.MakeClosure)
+				if !ok {
+					continue
+				}
+				for _, cb := range mc.Fn.(*ssa.Function).Blocks {
+					for _, ci := range cb.Instrs {
+						if c, ok := ci.(ssa.CallInstruction); ok {
+							note(arm, c.Common().StaticCallee())
 						}
 					}
 				}
 			}
 		}
 	}
-	// case-insensitive: the tag is Ext(ToLower(x))
-	lower := false
-	if tc, ok := tag.(*ssa.Call); ok {
-		if in, ok := tc.Call.Args[0].(*ssa.Call); ok {
-			if sc := in.Call.StaticCallee(); sc != nil && (sc.String() == "strings.ToLower" || sc.String() == "strings.ToUpper") {
-				lower = true
-			}
-		}
+	// case-insensitive: the tag applies ToLower (or ToUpper) somewhere around filepath.Ext
+	_, lower := extExpr(p, tag, 0)
+	for _, ins := range caseSensitiveNameTests(p, fn) {
+		lower = false
+		l.Fail(rule, fname, l.Key(rule, fname, "case-sensitive-name-test", ""), p.Pos(ins.Pos()), fname+" decides on a string taken from the file name without lower-casing it: an upper-case extension is treated differently from its lower-case form")
 	}
 	// default: ErrInvalidExtension is what the function returns
 	defOK := false
@@ -494,4 +511,177 @@ func pairSwapOK(c *ssa.Call, flags []string) bool {
 		}
 	}
 	return true
+}
+
+// extExpr: v is built from filepath.Ext and strings.ToLower/ToUpper applications (in either order,
+// possibly inside a single-return helper of the package): reports which of the two are applied.
+// ToLower maps rune by rune and neither creates nor removes '.' or a separator, so
+// Ext(ToLower(x)) == ToLower(Ext(x)).
+func extExpr(p *Prog, v ssa.Value, depth int) (hasExt, hasLower bool) {
+	if depth > 4 || v == nil {
+		return false, false
+	}
+	c, ok := v.(*ssa.Call)
+	if !ok {
+		return false, false
+	}
+	sc := c.Call.StaticCallee()
+	if sc == nil {
+		return false, false
+	}
+	switch sc.String() {
+	case "path/filepath.Ext":
+		_, l2 := extExpr(p, c.Call.Args[0], depth+1)
+		return true, l2
+	case "strings.ToLower", "strings.ToUpper":
+		e2, _ := extExpr(p, c.Call.Args[0], depth+1)
+		return e2, true
+	}
+	if p.inScope(sc) && len(sc.Blocks) == 1 {
+		if r, ok := sc.Blocks[0].Instrs[len(sc.Blocks[0].Instrs)-1].(*ssa.Return); ok && len(r.Results) == 1 {
+			return extExpr(p, r.Results[0], depth+1)
+		}
+	}
+	return false, false
+}
+
+// nameDerived: v is a string computed from a string parameter (or a string field of a parameter) of
+// the dispatcher through string-to-string functions; lowered reports whether every derivation chain
+// passes through strings.ToLower/ToUpper.
+func nameDerived(p *Prog, v ssa.Value, depth int) (derived, lowered bool) {
+	if depth > 8 || v == nil {
+		return false, false
+	}
+	isString := func(t types.Type) bool {
+		b, ok := t.Underlying().(*types.Basic)
+		return ok && b.Info()&types.IsString != 0
+	}
+	if !isString(v.Type()) {
+		return false, false
+	}
+	switch x := v.(type) {
+	case *ssa.Parameter:
+		return true, false
+	case *ssa.UnOp:
+		if x.Op == token.MUL {
+			if fa, ok := x.X.(*ssa.FieldAddr); ok {
+				if _, ok := fa.X.(*ssa.Parameter); ok {
+					return true, false
+				}
+				if al, ok := fa.X.(*ssa.Alloc); ok { // spilled value parameter
+					for _, r := range *al.Referrers() {
+						if st, ok := r.(*ssa.Store); ok && st.Addr == ssa.Value(al) {
+							if _, ok := st.Val.(*ssa.Parameter); ok {
+								return true, false
+							}
+						}
+					}
+				}
+			}
+		}
+	case *ssa.Field:
+		if _, ok := x.X.(*ssa.Parameter); ok {
+			return true, false
+		}
+	case *ssa.Slice:
+		return nameDerived(p, x.X, depth+1)
+	case *ssa.Phi:
+		d, lo := false, true
+		for _, e := range x.Edges {
+			de, le := nameDerived(p, e, depth+1)
+			if de {
+				d = true
+				lo = lo && le
+			}
+		}
+		return d, d && lo
+	case *ssa.Call:
+		sc := x.Call.StaticCallee()
+		if sc == nil {
+			return false, false
+		}
+		if s := sc.String(); s == "strings.ToLower" || s == "strings.ToUpper" {
+			d, _ := nameDerived(p, x.Call.Args[0], depth+1)
+			return d, d
+		}
+		if p.inScope(sc) && len(sc.Blocks) == 1 {
+			if r, ok := sc.Blocks[0].Instrs[len(sc.Blocks[0].Instrs)-1].(*ssa.Return); ok && len(r.Results) == 1 {
+				// the helper's own parameter stands for the argument
+				d, lo := nameDerived(p, r.Results[0], depth+1)
+				if d {
+					for _, a := range x.Call.Args {
+						if da, la := nameDerived(p, a, depth+1); da {
+							return true, lo || la
+						}
+					}
+				}
+				return false, false
+			}
+		}
+		d, lo := false, true
+		for _, a := range x.Call.Args {
+			if da, la := nameDerived(p, a, depth+1); da {
+				d = true
+				lo = lo && la
+			}
+		}
+		return d, d && lo
+	}
+	return false, false
+}
+
+// caseSensitiveNameTests lists the places where fn (or a helper) decides something on a string
+// derived from the file name without lower-casing it first.
+func caseSensitiveNameTests(p *Prog, fn *ssa.Function) []ssa.Instruction {
+	var out []ssa.Instruction
+	bad := func(v ssa.Value) bool {
+		d, lo := nameDerived(p, v, 0)
+		return d && !lo
+	}
+	// a constant without letters ("." or "") is the same in either case
+	neutral := func(v ssa.Value) bool {
+		c, ok := v.(*ssa.Const)
+		if !ok || c.Value == nil || c.Value.Kind() != constant.String {
+			return false
+		}
+		s := constant.StringVal(c.Value)
+		return strings.ToLower(s) == strings.ToUpper(s)
+	}
+	for _, b := range fn.Blocks {
+		for _, ins := range b.Instrs {
+			switch x := ins.(type) {
+			case *ssa.BinOp:
+				switch x.Op {
+				case token.EQL, token.NEQ, token.LSS, token.LEQ, token.GTR, token.GEQ:
+					if (bad(x.X) && !neutral(x.Y)) || (bad(x.Y) && !neutral(x.X)) {
+						out = append(out, ins)
+					}
+				}
+			case *ssa.Lookup:
+				if bad(x.Index) || bad(x.X) {
+					out = append(out, ins)
+				}
+			case *ssa.Call:
+				sc := x.Call.StaticCallee()
+				if sc == nil {
+					continue
+				}
+				switch sc.String() {
+				case "strings.HasSuffix", "strings.HasPrefix", "strings.Contains", "strings.Index", "strings.LastIndex", "strings.Compare", "path/filepath.Match", "path.Match":
+					nb, nn := 0, 0
+					for _, a := range x.Call.Args {
+						if bad(a) {
+							nb++
+						} else if neutral(a) {
+							nn++
+						}
+					}
+					if nb > 0 && nb+nn < len(x.Call.Args) {
+						out = append(out, ins)
+					}
+				}
+			}
+		}
+	}
+	return out
 }
